@@ -518,6 +518,52 @@ def run(ctx):
                 else:
                     ok = False
         return ok and n_some > 0
+    def is_param(g, operand, k, depth=0):
+        """operand holds the value of g's k-th parameter (1-based local), through whole-local copies/moves"""
+        l = op_local(operand)
+        if l is None or depth > 8 or operand.get("place", {}).get("p"):
+            return False
+        if l == k:
+            return True
+        ds = g.defs_of(l)
+        return len(ds) == 1 and ds[0][1] != "term" and ds[0][2]["k"] == "use" and is_param(g, ds[0][2]["a"], k, depth + 1)
+
+    def ctor_applied_nonempty(g, cx, bb, t, is_ctor, depth=0):
+        """call `t` (in body g) receives the Raw constructor (arguments for which is_ctor holds): every application of the constructor it leads to is
+        on non-empty bytes.  Understood receivers: Option::map(src, ctor) with src = h(..) returning Some only of non-empty bytes; a direct application
+        ctor(bytes) (FnOnce/FnMut/Fn call) under a non-empty guard; a crate function that does only such things with that parameter (any helper,
+        found by data flow from the call site, not by name)."""
+        ks = [k for k, a in enumerate(t["args"]) if is_ctor(a)]
+        if not ks or depth > 3:
+            return False, None
+        if call_matches(t, r"Option::<T>::map$") and len(t["args"]) == 2 and ks == [1]:
+            l = op_local(t["args"][0])
+            ds = g.defs_of(l) if l is not None else []
+            return (len(ds) == 1 and ds[0][1] == "term" and some_only_nonempty(prog.body(callee_name(ds[0][2]) or ""))), TT.of(g, t["args"][0], cx)
+        if call_matches(t, r"ops::(FnOnce::call_once|FnMut::call_mut|Fn::call)$") and ks == [0] and len(t["args"]) == 2:
+            tl = op_local(t["args"][1])
+            ds = g.defs_of(tl) if tl is not None else []
+            if len(ds) == 1 and ds[0][1] != "term" and ds[0][2]["k"] == "agg" and ds[0][2]["ak"] == "tuple" and len(ds[0][2]["fields"]) == 1:
+                return guarded_nonempty(g, cx, ds[0][2]["fields"][0], bb)
+            return False, None
+        f = t["fn"]
+        h = prog.body((f.get("resolved") if f.get("resolved_local") else None) or (f.get("path") if f.get("local") else None) or "")
+        if h is None or h.kind not in ("Fn", "AssocFn") or len(t["args"]) != h.arg_count:
+            return False, None
+        hcx, last = None, None
+        for k in ks:
+            for hb, ht in h.calls():
+                if any(is_param(h, a, k + 1) for a in ht["args"]):
+                    ok, last = ctor_applied_nonempty(h, hcx, hb, ht, lambda a, k=k: is_param(h, a, k + 1), depth + 1)
+                    if not ok:
+                        return False, last
+            # the parameter is not stored / captured / returned: besides calls and whole-local copies nothing mentions it
+            for i, si, s_ in h.assigns():
+                rv = s_["rv"]
+                if rv["k"] in ("agg", "ref", "rawptr", "cast") and any(is_param(h, o, k + 1) for o in (rv.get("fields") or []) + ([{"k": "copy", "place": rv["place"]}] if "place" in rv else []) + ([rv["a"]] if "a" in rv else [])):
+                    return False, None
+        return True, last
+
     n = 0
     for b in prog.bodies:
         if not b.file.endswith("decoder.rs"):
@@ -539,15 +585,9 @@ def run(ctx):
                 continue
             n += 1
             adt = ctor[0]["c"]["fn"]["path"].rsplit("::", 1)[0]
-            ok = False
-            src_term = None
-            if call_matches(t, r"Option::<T>::map$") and len(t["args"]) == 2:
-                src_term = TT.of(b, t["args"][0], cx)
-                l = op_local(t["args"][0])
-                ds = b.defs_of(l) if l is not None else []
-                if len(ds) == 1 and ds[0][1] == "term":
-                    ok = some_only_nonempty(prog.body(callee_name(ds[0][2]) or ""))
-            ctx.instance("RAW-NONEMPTY", {"fn": b.path, "adt": adt, "bytes": term_text(src_term, 80) if src_term else None, "guarded": ok, "form": "Option::map(ctor)"})
+            ok, src_term = ctor_applied_nonempty(b, cx, bb, t, lambda a: any(a is c_ for c_ in ctor))
+            form = "Option::map(ctor)" if call_matches(t, r"Option::<T>::map$") else "ctor handed to %s" % _last_seg(callee_name(t) or "?")
+            ctx.instance("RAW-NONEMPTY", {"fn": b.path, "adt": adt, "bytes": term_text(src_term, 80) if src_term else None, "guarded": ok, "form": form})
             if not ok:
                 ctx.violation("RAW-NONEMPTY", b.path, adt.split("::")[-1], "a Raw item is built from bytes that are not known to be non-empty (constructor applied to %s)" % (term_text(src_term, 80) if src_term else "?"),
                               sites=["%s:%d" % (b.file, t["line"])])
